@@ -32,12 +32,19 @@ def configs(tier):
                     if tier == "quick" and header == 1 and line_delimiter in ("cr", "any") and not checks:
                         continue
                     result.append({"preset": preset, "header": header, "fields": fields, "checks": checks, "line_delimiter": line_delimiter})
+    # other relations of quote and escape character (the output is judged by reading it back)
+    for quote, escape in (("\\", "\\"), ("'", "\\"), ('"', "\\"), ("'", '"')):
+        result.append({"preset": "delimited", "header": 0, "fields": ["id", "name", "kind"], "checks": [["uniq", "IsUnique", "id"]], "line_delimiter": "lf", "dialect": [quote, escape]})
     return result
 
 
+def cid_rows_for(config, decls):
+    extra = [("Quote character", config["dialect"][0]), ("Escape character", config["dialect"][1])] if config.get("dialect") else []
+    return harness.cid_rows(config["preset"], decls, config["checks"], config["header"], line_delimiter=config["line_delimiter"], extra=extra)
+
+
 def make_cid(config, decls):
-    rows = harness.cid_rows(config["preset"], decls, config["checks"], config["header"], line_delimiter=config["line_delimiter"])
-    return harness.make_cid(rows)
+    return harness.make_cid(cid_rows_for(config, decls))
 
 
 def shapes_for(config):
@@ -108,7 +115,7 @@ def judge(case, part):
     config = case["config"]
     decls = readermachine.decls_for(config)
     fixed = decls[0]["fmt"] == "fixed"
-    tag = "%s|%s|%%s" % (config["preset"], config["line_delimiter"])
+    tag = "%s|%s%s|%%s" % (config["preset"], config["line_delimiter"], ",quote=%s,escape=%s" % tuple(config["dialect"]) if config.get("dialect") else "")
     part.evaluations += 1
     cid = make_cid(config, decls)
     target = io.StringIO(newline="")
@@ -163,7 +170,7 @@ def judge(case, part):
             if fixed:
                 if body != "".join(stored):
                     part.fail(tag % "fixed-row-rendering", narrowed, "".join(stored), body)
-            else:
+            elif not config.get("dialect"):
                 parsed = list(csv.reader(io.StringIO(body, newline=""), delimiter=",", quotechar='"', doublequote=True, strict=True))
                 if parsed != [stored] and not (stored == [] and parsed == []):
                     part.fail(tag % "delimited-row-does-not-parse-back", narrowed, stored, parsed)
@@ -244,6 +251,30 @@ def judge(case, part):
             part.fail(tag % "file-target-close-verdict", case, closed, outcomes)
         elif _unencodable_row(config, case["rows"]) and outcomes[-2] != "rejected":
             part.fail(tag % "unencodable-row-not-rejected", case, "rejected", outcomes)
+    if len(rows) <= 2:
+        # the CID given as the path of a CID file instead of a Cid object: the same writer, the same output
+        cid_path = os.path.join(readermachine.tmpdir(), "c14_cid_%d.csv" % os.getpid())
+        with open(cid_path, "w", newline="", encoding="utf-8") as cid_stream:
+            csv.writer(cid_stream).writerows(cid_rows_for(config, decls))
+        by_path_target = io.StringIO(newline="")
+        by_path = None
+        try:
+            path_writer = cutplace.Writer(cid_path, by_path_target)
+            for row in rows:
+                try:
+                    path_writer.write_row(list(row))
+                except errors.CutplaceError:
+                    pass
+            try:
+                path_writer.close()
+            except errors.CutplaceError:
+                pass
+        except Exception as error:
+            by_path = "%s: %s" % (type(error).__name__, error)
+        part.transitions += 1
+        part.validated += 1
+        if by_path is not None or by_path_target.getvalue() != written:
+            part.fail(tag % "writer-given-the-cid-as-a-path", case, written, by_path if by_path is not None else by_path_target.getvalue())
     # read back under a fresh CID
     fresh = make_cid(config, decls)
     back, raised = [], None
